@@ -47,7 +47,9 @@ type v1Str struct {
 }
 
 var stringTagContents = []string{`2`, `-2`, `2.5`, `1e2`, `"2"`, `"x"`, `""`, `null`, `true`, `false`, ` 2`, `2 `, `+2`, `.5`, `2.`, `0x10`, `Inf`, `NaN`, `x`, ``, `"`,
-	`[1]`, `{}`, `1_000`, `02`, `-0`, `2e`, `99999999999999999999`, `300`, `-1`, `"2"`, `"null"`, `"true"`, ` "x"`, `"x" `, `1e400`, `3.4e39`, `"a\"b"`, `nul`, `True`}
+	`[1]`, `{}`, `1_000`, `02`, `-0`, `2e`, `99999999999999999999`, `300`, `-1`, `"2"`, `"null"`, `"true"`, ` "x"`, `"x" `, `1e400`, `3.4e39`, `"a\"b"`, `nul`, `True`,
+	"\"a\u2028b\u2029\"", `"<a&b>"`, "\"\u00e9\"", `"\u0031"`, `"\u0032\u0035"`, `"\ud83d"`, `"\u0000"`, `"a\nb"`, `\u0031`,
+	"\"a\xffb\"", "\"\xc3\"", `"\udc00"`, `"\ud83d\u0041"`, `"\ud83d\ud83d\ude00"`, `"\ud83d`, `"\ud83d\"`, `"\uD83D\x"`, "\"\xff\\x\""}
 
 func show2(v reflect.Value) string {
 	s := ""
